@@ -220,3 +220,42 @@ func init() {
 		return res
 	})
 }
+
+// ---- go-ethereum helpers used by the attestations light client (T-crypto: uninterpreted)
+func init() {
+	const gethCommon = "github.com/ethereum/go-ethereum/common"
+	const gethCrypto = "github.com/ethereum/go-ethereum/crypto"
+	reg(gethCommon+".HexToAddress", func(p *preCall) Val {
+		fc := p.fc()
+		fc.B.DeclFun("hex_to_addr", []string{"String"}, "String")
+		t := "(hex_to_addr " + p.str(0) + ")"
+		fc.B.Assert(eq("(str.len "+t+")", "20"))
+		return Val{S: "Bytes", T: "(mkB false " + t + ")", Typ: p.typ(0)}
+	})
+	reg(gethCrypto+".SigToPub", func(p *preCall) Val {
+		// public-key recovery: deterministic in (hash, signature); the recovered key is an opaque value
+		fc := p.fc()
+		tupT := p.resT.(*types.Tuple)
+		pt := tupT.At(0).Type().Underlying().(*types.Pointer)
+		ks := fc.B.SortOf(pt.Elem())
+		fc.B.DeclFun("sig_pubkey", []string{"String", "String"}, ks)
+		fc.B.DeclFun("sig_recover_err", []string{"String", "String"}, "Int")
+		h, s := p.str(0), p.str(1)
+		e := "(sig_recover_err " + h + " " + s + ")"
+		fc.B.Assert(and("(>= "+e+" 0)", implies(not(eq(e, "0")), and(not("(is_sentinel "+e+")"), not("(is_sentinel (err_root "+e+"))")))))
+		ptr := fc.alloc(p.st, pt.Elem(), "pubkey")
+		fc.store(p.st, ptr, fc.mkVal(pt.Elem(), "(sig_pubkey "+h+" "+s+")"))
+		ptr.Typ = tupT.At(0).Type()
+		res := ptr
+		res.T = ite(eq(e, "0"), ptr.T, "0")
+		fc.trusted["T-crypto: secp256k1 public-key recovery (go-ethereum crypto.SigToPub) is a deterministic function of (hash, signature)"] = true
+		return tup(res, Val{S: "Int", T: e, Typ: tupT.At(1).Type()})
+	})
+	reg(gethCrypto+".PubkeyToAddress", func(p *preCall) Val {
+		fc := p.fc()
+		fc.B.DeclFun("pub_addr", []string{p.args[0].S}, "String")
+		t := "(pub_addr " + p.args[0].T + ")"
+		fc.B.Assert(eq("(str.len "+t+")", "20"))
+		return Val{S: "Bytes", T: "(mkB false " + t + ")", Typ: p.typ(0)}
+	})
+}
